@@ -18,6 +18,18 @@ def parseEv (j : Json) : Except String CEv := do
   | "close" => return .close τ ((j.getObjValAs? Bool "exc").toOption.getD false)
   | _ => throw s!"unknown event kind {k}"
 
+/-- `[{"op": id} | {"stream": [...]}]` -/
+partial def parseItems (js : List Json) : Except String Items :=
+  match js with
+  | [] => .ok .nil
+  | j :: rest =>
+    match j.getObjVal? "stream" with
+    | .ok sub => do
+      let a ← sub.getArr?
+      return .stream (← parseItems a.toList) (← parseItems rest)
+    | .error _ => do
+      return .op (← getNat j "op") (← parseItems rest)
+
 def errName : Err → String
   | .lookupError => "LookupError"
   | .noTask => "noTask"
@@ -99,6 +111,9 @@ def handle (op : String) (a : Json) : Except String Json := do
       return ok (Json.mkObj [("reads", arr reads), ("ctxs", arr (cs.map (ctxJson s))),
                              ("tasks", arr (s.tnames.reverse.map (taskJson s))),
                              ("late", toJson s.late), ("empty_close", toJson s.emptyClose)]) tags
+  | "collect" =>
+    let items ← parseItems (← getArr a "items")
+    return ok (Json.mkObj [("order", toJson (collect items)), ("all", toJson (allOps items))])
   | _ => throw s!"unknown op {op}"
 
 end Drivers.Ctx
